@@ -136,7 +136,7 @@ def run(run):
     if rc != 0:
         run.correspondence_break("Model/Preprocess.v does not build", None, error=out[-1500:])
     check_preprocess(run, rng, run.tier == "quick")
-    n = 500 if run.tier == "quick" else 12000
+    n = 800 if run.tier == "quick" else 12000
     # ---- (a) nowiki
     cases_a = []
     for _ in range(n):
